@@ -161,7 +161,7 @@ def classes(ma, chain):
 
 def observe(item):
     ma, chain, cfg = item
-    src = gen(ma, chain)
+    src = chain if isinstance(chain, str) else gen(ma, chain)
     try:
         compile(src, '<s>', 'exec')
     except SyntaxError:
@@ -184,6 +184,39 @@ def observe(item):
         i = next((k for k in range(min(len(o), len(c))) if o[k] != c[k]), min(len(o), len(c)))
         return f"fail:logged values differ at {i}: original {o[i:i+2]} converted {c[i:i+2]}", src, conv
     return "ok", src, conv
+
+
+def super_free_programs():
+    """methods that use the implicit __class__ cell (zero-argument super(), __class__) AND names of an enclosing
+    function, in either order of first occurrence, at two depths"""
+    out = []
+    for bind in ('assign', 'param'):
+        for use in ('read', 'nlassign', 'nlaug', 'inner-def', 'lambda'):
+            for cell in ('super', 'dunder', 'both', 'two-arg'):
+                for first in ('cell', 'name'):
+                    for deep in (0, 1):
+                        cellx = {'super': "super().m()", 'dunder': "__class__.__name__", 'both': "(super().m(), __class__.__name__)",
+                                 'two-arg': "super(C, self).m()"}[cell]
+                        usex = {'read': "x", 'nlassign': "x", 'nlaug': "x", 'inner-def': "g()", 'lambda': "(lambda: x)()"}[use]
+                        pre = {'read': [], 'nlassign': ["nonlocal x", "x = x + '!'"], 'nlaug': ["nonlocal x", "x += '+'"],
+                               'inner-def': ["def g():", "    return x + y"], 'lambda': []}[use]
+                        if first == 'cell':
+                            body = pre[:0] + [l for l in pre if l.startswith('nonlocal')] + ["r0 = " + cellx] + [l for l in pre if not l.startswith('nonlocal')] + ["return (r0, " + usex + ", y)"]
+                        else:
+                            body = pre + ["r1 = " + usex, "return (" + cellx + ", r1, y)"]
+                        cls = ["class B:", "    def m(self):", "        return 'B'", "class C(B):", "    def m(self):"] + ["        " + l for l in body] + \
+                              ["c = C()", "log('r', c.m(), c.m(), x, y)"]
+                        if deep:
+                            cls = ["def mid():", "    nonlocal y", "    y = y + 'm'"] + ["    " + l for l in cls] + ["mid()"]
+                        head = "def outer(x='p'):" if bind == 'param' else "def outer():"
+                        L = [head] + (["    x = 'o'"] if bind == 'assign' else []) + ["    y = 'y'"] + ["    " + l for l in cls] + ["    log('end', x, y)", "outer()"]
+                        out.append((f"{bind}/{use}/{cell}/{first}/{deep}", "\n".join(L) + "\n"))
+    return out
+
+
+def observe_src(item):
+    label, src, cfg = item
+    return observe((None, src, cfg))
 
 
 def main(argv):
@@ -238,10 +271,22 @@ def main(argv):
             pairs.append((src, (cfg[1], cfg[2])))
         if len(ck.samples) < 4 and len(ch) == 3 and verdict == "ok" and not cs and ch[0][1] == 'assign' and ch[2][1] in ('nlaug', 'read'):
             ck.sample({"chain": [f"{a}:{b_}" for a, b_ in ch], "module_assign": ma, "source": src})
+    # methods using the __class__ cell together with names of enclosing functions
+    sf = super_free_programs()
+    sf_items = [(label, src, gen_prog.CONFIGS[(i * 5 + k) % 8]) for i, (label, src) in enumerate(sf) for k in ((0, 3) if ck.tier == "quick" else range(8))]
+    sf_results = par.pmap(observe_src, sf_items)
+    for (label, src0, cfg), (verdict, src, conv) in zip(sf_items, sf_results):
+        ck.case(f"{cfg}|{src}", nontrivial=not verdict.startswith("skip"))
+        ck.count("super_free:" + verdict.split(":")[0])
+        if verdict.startswith("fail"):
+            failing.append((src, cfg, verdict, conv, ["super-free:" + label]))
+        if not verdict.startswith("skip"):
+            pairs.append((src, (cfg[1], cfg[2])))
     # the hypothesis WalkOK of C06.free_name_goes_to_binder on CPython's own tables, for every program of the matrix
     # (and of the generator's corpus): it must hold, otherwise the theorem does not speak about real programs
     walk_bad = []
     walk_srcs = [src for (_, _, _), (verdict, src, conv) in zip(items, results) if not verdict.startswith("skip")]
+    walk_srcs += [src for (_, src, _), (verdict, _, _) in zip(sf_items, sf_results) if not verdict.startswith("skip")][::2]
     walk_srcs += [gen_prog.gen_program(ck.rng)[0] for _ in range(60 if ck.tier == "quick" else 1500)]
     for src in walk_srcs:
         try:
